@@ -6,7 +6,9 @@
    base_interpreter.py; where they differ the model branches on `engine`. *)
 From XSM Require Export Model.Select.
 
-Inductive engine := Sync | Async.
+(* Pure = the _Probe subclass of SyncInterpreter behind initial_transition / transition:
+   actions are recorded instead of run (assign is applied), tasks are never scheduled *)
+Inductive engine := Sync | Async | Pure.
 Inductive status := Uninit | Running | Done | Errored | Stopped.
 Inductive err := EImplMissing | EStateNotFound | EInvalidConfig | ENotSupported.
 
@@ -24,7 +26,9 @@ Inductive obs :=
 | OCan (b : bool)
 | OEnter (s : nat)                             (* state added to the active configuration *)
 | OLeave (s : nat)                             (* state removed from the active configuration *)
-| OEmit (k : nat) (which : nat).               (* an emit listener was called: 0 typed, 1 wildcard *)                             (* answer of can(event), probed by the harness before a send *)
+| OEmit (k : nat) (which : nat)                (* an emit listener was called: 0 typed, 1 wildcard *)
+| OPAct (k : nat)                              (* pure API: user action k reported (not run) *)
+| OPBuiltin (code : nat).                      (* pure API: built-in reported: 1 assign, 2 raise, 3 emit, 4 other *)                             (* answer of can(event), probed by the harness before a send *)
 
 Record st := {
   s_cfg : config;
@@ -72,8 +76,8 @@ Fixpoint for_each {A} (f : A -> M) (l : list A) : M :=
    async: unless stopped/done/error *)
 Definition accepts (eng : engine) (x : status) : bool :=
   match eng, x with
-  | Sync, Running => true
-  | Sync, _ => false
+  | (Sync | Pure), Running => true
+  | (Sync | Pure), _ => false
   | Async, (Stopped | Done | Errored) => false
   | Async, _ => true
   end.
@@ -82,23 +86,43 @@ Definition send_self (eng : engine) (ev : event) (s : st) : st :=
 
 (* ---------------- actions ---------------- *)
 
-Fixpoint exec_actions (eng : engine) (processing : bool) (acts : list act) (ev : event) (s : st) : st * option err :=
+Fixpoint pure_actions (acts : list act) (s : st) : st :=
+  match acts with
+  | [] => s
+  | a :: r =>
+    pure_actions r
+      match a with
+      | AMark k | AFail k | AMissing k => logo (OPAct k) s
+      | AAssign v z => logo (OPBuiltin 1) (with_ctx (ctx_set (s_ctx s) v z) s)
+      | ARaise _ _ => logo (OPBuiltin 2) s
+      | AEmit _ => logo (OPBuiltin 3) s
+      | ABadBuiltin _ => logo (OPBuiltin 4) s
+      end
+  end.
+
+Fixpoint run_actions (eng : engine) (processing : bool) (acts : list act) (ev : event) (s : st) : st * option err :=
   match acts with
   | [] => (s, None)
   | a :: r =>
     match a with
-    | AMark k => exec_actions eng processing r ev (logo (OAct k (e_type ev) (e_tag ev)) s)
+    | AMark k => run_actions eng processing r ev (logo (OAct k (e_type ev) (e_tag ev)) s)
     | AFail k => (logo (OActErr k) (logo (OAct k (e_type ev) (e_tag ev)) s), None)
     | AMissing _ => (s, Some EImplMissing)
-    | AAssign v z => exec_actions eng processing r ev (with_ctx (ctx_set (s_ctx s) v z) s)
+    | AAssign v z => run_actions eng processing r ev (with_ctx (ctx_set (s_ctx s) v z) s)
     | ARaise ty tag =>
         let s1 := match eng with
                   | Async => if processing then with_rd (S (s_raise_depth s)) s else s
-                  | Sync => s end in
-        exec_actions eng processing r ev (send_self eng {| e_type := ty; e_kind := EPlain; e_tag := tag |} s1)
+                  | _ => s end in
+        run_actions eng processing r ev (send_self eng {| e_type := ty; e_kind := EPlain; e_tag := tag |} s1)
     | ABadBuiltin k => (logo (OActErr k) s, None)
-    | AEmit k => exec_actions eng processing r ev (logo (OEmit k 1) (logo (OEmit k 0) s))
+    | AEmit k => run_actions eng processing r ev (logo (OEmit k 1) (logo (OEmit k 0) s))
     end
+  end.
+
+Definition exec_actions (eng : engine) (processing : bool) (acts : list act) (ev : event) (s : st) : st * option err :=
+  match eng with
+  | Pure => (pure_actions acts s, None)
+  | _ => run_actions eng processing acts ev s
   end.
 
 (* ---------------- geometry ---------------- *)
@@ -207,7 +231,7 @@ Definition done_event (m : machine) (a : nat) (tag : nat) : event :=
    top-level completion *)
 (* _note_chained_event: the async engine counts an engine-raised event while it is processing another *)
 Definition note_chained (eng : engine) (pr : bool) (s : st) : st :=
-  match eng with Async => if pr then with_rd (S (s_raise_depth s)) s else s | Sync => s end.
+  match eng with Async => if pr then with_rd (S (s_raise_depth s)) s else s | _ => s end.
 
 Definition fire_on_done (eng : engine) (pr : bool) (m : machine) (fin : nat) (s : st) : st :=
   match find (fun a => match n_ondone (nd m a) with Some _ => state_done m (s_cfg s) a | None => false end)
@@ -224,10 +248,17 @@ Definition fire_on_done (eng : engine) (pr : bool) (m : machine) (fin : nat) (s 
 
 (* at this level only the call and the "service not registered" failure are
    modelled; Timers.v refines what an armed task does later *)
-Definition sched (m : machine) (x : nat) : M :=
+Definition sched_run (m : machine) (x : nat) : M :=
   lift (logo (OSched x)) ;;
   (if existsb (fun i => Nat.eqb (i_src i) 0) (n_invoke (nd m x)) then raise EImplMissing else ret).
 Definition cancel (x : nat) : M := lift (logo (OCancel x)).
+(* where _schedule_state_tasks sits relative to the descent: before it (async), after it (sync); never (pure) *)
+Definition sched (eng : engine) (m : machine) (x : nat) : M :=
+  match eng with Pure => ret | _ => sched_run m x end.
+Definition sched_before (eng : engine) (m : machine) (x : nat) : M :=
+  match eng with Async => sched_run m x | _ => ret end.
+Definition sched_after (eng : engine) (m : machine) (x : nat) : M :=
+  match eng with Sync => sched_run m x | _ => ret end.
 
 (* ---------------- entry ---------------- *)
 
@@ -235,7 +266,7 @@ Definition entry_event (eng : engine) (m : machine) (ev : option event) (x : nat
   match ev with
   | Some e => e
   | None => match eng with
-            | Sync => {| e_type := ("entry." ++ id_of m x)%string; e_kind := EPlain; e_tag := 0 |}
+            | Sync | Pure => {| e_type := ("entry." ++ id_of m x)%string; e_kind := EPlain; e_tag := 0 |}
             | Async => {| e_type := "___xstate_statemachine_init___"; e_kind := EPlain; e_tag := 0 |}
             end
   end.
@@ -250,18 +281,18 @@ Definition enter_one (eng : engine) (pr : bool) (m : machine) (rec : list nat ->
            (expl_parents expl_ids : list nat) (ev : option event) (x : nat) : M :=
   lift (fun s => logo (OEnter x) (with_cfg (cadd x (s_cfg s)) s)) ;;
   (fun s => exec_actions eng pr (n_entry (nd m x)) (entry_event eng m ev x) s) ;;
-  (match eng with Async => sched m x | Sync => ret end) ;;
+  sched_before eng m x ;;
   (if is_final m x then lift (fire_on_done eng pr m x) else ret) ;;
   match kind_of m x with
   | KCompound =>
       match n_initial (nd m x) with
       | Some i =>
-          if mem x expl_parents then (match eng with Sync => sched m x | Async => ret end)
-          else rec [i] (match eng with Async => Some (entry_event eng m ev x) | Sync => ev end) ;;
-               (match eng with Sync => sched m x | Async => ret end)
+          if mem x expl_parents then sched_after eng m x
+          else rec [i] (match eng with Async => Some (entry_event eng m ev x) | _ => ev end) ;;
+               sched_after eng m x
       | None =>
           match children m x with
-          | [] => (match eng with Sync => sched m x | Async => ret end)
+          | [] => sched_after eng m x
           | _ => raise EInvalidConfig
           end
       end
@@ -269,10 +300,10 @@ Definition enter_one (eng : engine) (pr : bool) (m : machine) (rec : list nat ->
       let regions := filter (fun c => negb (is_history m c) && negb (mem c expl_ids)) (children m x) in
       (match regions with
        | [] => ret
-       | _ => rec regions (match eng with Async => Some (entry_event eng m ev x) | Sync => ev end)
+       | _ => rec regions (match eng with Async => Some (entry_event eng m ev x) | _ => ev end)
        end) ;;
-      (match eng with Sync => sched m x | Async => ret end)
-  | _ => (match eng with Sync => sched m x | Async => ret end)
+      sched_after eng m x
+  | _ => sched_after eng m x
   end.
 
 Fixpoint enter_states (fuel : nat) (eng : engine) (pr : bool) (m : machine) (l : list nat) (ev : option event) : M :=
@@ -290,7 +321,7 @@ Definition exit_event (eng : engine) (m : machine) (ev : option event) (x : nat)
   match ev with
   | Some e => e
   | None => match eng with
-            | Sync => {| e_type := ("exit." ++ id_of m x)%string; e_kind := EPlain; e_tag := 0 |}
+            | Sync | Pure => {| e_type := ("exit." ++ id_of m x)%string; e_kind := EPlain; e_tag := 0 |}
             | Async => {| e_type := "___xstate_statemachine_exit___"; e_kind := EPlain; e_tag := 0 |}
             end
   end.
@@ -298,7 +329,7 @@ Definition exit_event (eng : engine) (m : machine) (ev : option event) (x : nat)
 Definition exit_states (eng : engine) (pr : bool) (m : machine) (l : list nat) (ev : option event) : M :=
   lift (record_history m l) ;;
   match eng with
-  | Sync =>
+  | Sync | Pure =>
       for_each cancel l ;;
       for_each (fun x => (fun s => exec_actions eng pr (n_exit (nd m x)) (exit_event eng m ev x) s) ;;
                          lift (fun s => if mem x (s_cfg s) then logo (OLeave x) (with_cfg (cdel x (s_cfg s)) s) else s)) l
@@ -333,11 +364,11 @@ Definition exec_external (eng : engine) (pr : bool) (m : machine) (t : trans) (t
     | (s1, None) =>
         match eng with
         | Async => (hook_trans t ;; hook_notify) s1
-        | Sync => (hook_notify ;; hook_trans t) s1
+        | _ => (hook_notify ;; hook_trans t) s1
         end
     | (s1, Some e) =>
         (* rollback: restore the configuration, re-arm what exiting tore down, re-raise *)
-        match for_each (sched m) (filter (fun x => mem x xs) (sort_nat snapshot)) (with_cfg snapshot s1) with
+        match for_each (sched eng m) (filter (fun x => mem x xs) (sort_nat snapshot)) (with_cfg snapshot s1) with
         | (s2, None) => (s2, Some e)
         | r => r
         end
